@@ -31,6 +31,18 @@ CJK = "┌──┐ 一二三\n│é │\n└──┘"
 FFFD = "a \ufffd b\n+--+ \ufffd"
 # a body that begins with a byte order mark and has CRLF line ends, leading blank lines, indentation and trailing blanks:
 # whatever the server "tidies" before handing the text to the library changes the answer
+# bodies that differ from SMALL only in white space at the edges, in letter case, or in their line ends: a server that
+# memoises, normalises or deduplicates requests must still answer each with the conversion of exactly that body
+NEAR = {
+    "near-lead-spaces": "    " + SMALL,
+    "near-lead-newline": "\n" + SMALL,
+    "near-lead-both": "\n  " + SMALL,
+    "near-trail-spaces": SMALL + "   ",
+    "near-trail-newline": SMALL + "\n\n",
+    "near-upper": SMALL.upper(),
+    "near-crlf": SMALL.replace("\n", "\r\n"),
+    "near-inner-space": SMALL.replace("|ab|", "|ab |"),
+}
 EDGES = "\ufeff\r\n\n  +--+\r\n  |ab|\r\n  +--+ \ufeff\r\n\n\n \t\n"
 
 
@@ -96,6 +108,7 @@ def kinds(docs):
         # the same small diagram sent with chunked transfer encoding (no Content-Length)
         "post-chunked": (b"POST / HTTP/1.1\r\nHost: t\r\nTransfer-Encoding: chunked\r\nConnection: close\r\n\r\n", chunked(SMALL.encode()), 200, docs[SMALL]),
         "post-dense-unicode": (post(DENSE.encode()), DENSE.encode(), 200, docs[DENSE]),
+        **{n: (post(b.encode()), b.encode(), 200, docs[b]) for n, b in NEAR.items()},
         "post-bad-utf8": (post(b"+-\xff\xfe-+"), b"+-\xff\xfe-+", 400, None),
         "post-too-big": (post(big_body), big_body, 413, None),
         "post-at-limit": (post(ATLIMIT.encode()), ATLIMIT.encode(), 200, docs[ATLIMIT]),
@@ -337,8 +350,8 @@ def interleavings(n_clients, n_events):
 def main():
     mode = sys.argv[1]
     build_binaries()
-    docs = library_docs([SMALL, "", HOSTILE, BIG, CJK, ATLIMIT, DENSE, FFFD, EDGES])
-    if any(v is None for v in docs.values()) or len(docs) != 9:
+    docs = library_docs([SMALL, "", HOSTILE, BIG, CJK, ATLIMIT, DENSE, FFFD, EDGES] + list(NEAR.values()))
+    if any(v is None for v in docs.values()) or len(docs) != 9 + len(NEAR):
         print("MACHINERY-ERROR: cannot obtain the library's documents")
         sys.exit(2)
     K = kinds(docs)
@@ -366,7 +379,7 @@ def main():
     tier = sys.argv[2]
     seed = int(os.environ.get("VERIF_SEED", "0") or 0)
     t0 = time.time()
-    names = list(K)
+    names = [k for k in K if not k.startswith("near-")]
     cheap = [k for k in names if k not in ("post-too-big", "post-20k", "post-at-limit", "post-dense-unicode", "impatient")]
     # (a) sequences
     fresh = [(k,) for k in names] + [p for p in itertools.product(names, repeat=2)]
@@ -496,12 +509,31 @@ def main():
                 srv.stop()
         return out
 
+    def near_job(_):
+        # every ordered pair and triple of near-equal bodies (and SMALL itself) on ONE long-lived server
+        fam = ["post-small"] + list(NEAR)
+        srv = Server()
+        out = []
+        try:
+            for n in (2, 3):
+                for seq in itertools.product(fam, repeat=n):
+                    if len(set(seq)) < 2:
+                        continue
+                    out.append(("sequence", {"seq": list(seq), "server": "long-lived"}, run_sequence(list(seq), K, srv)))
+                    if not srv.alive():
+                        srv = Server()
+        finally:
+            srv.stop()
+        return out
+
     with ThreadPoolExecutor(5) as ex:
+        near_fut = ex.submit(near_job, 0)
         futs = [ex.submit(environment_job, w) for w in ("pipe-unread", "pipe-closed", "nofile")]
         for out in ex.map(impatient_job, [0]):
             results.extend(out)
         for fu in futs:
             results.extend(fu.result())
+        results.extend(near_fut.result())
     with ThreadPoolExecutor(1) as ex:
         for out in ex.map(burst_job, [0]):
             results.extend(out)
